@@ -349,7 +349,7 @@ Section Run.
              | VsUnit =>
                  match nested_ with
                  | NPath _ _ => Ok (VVariant (vi_ident vi) [])
-                 | _ => Err (unsupported_format "non-path")
+                 | _ => Err (with_span (i_span (ninfo nested_)) (unsupported_format "non-path"))
                  end
              | VsNewtype =>
                  match cs with
@@ -362,9 +362,10 @@ Section Run.
                  match nested_ with
                  | NList _ _ _ items =>
                      map_ok (VVariant (vi_ident vi))
-                            (parse_fields fs cs (vi_auk vi) (state0 fs) items (fun _ => Ok None) (at_ (vi_name vi)))
+                            (parse_fields fs cs (vi_auk vi) (state0 fs) items (fun _ => Ok None)
+                                          (fun e => at_ (vi_name vi) (with_span (i_span (ninfo nested_)) e)))
                  | NBadList _ _ _ es msg => Err (from_syn es msg)
-                 | _ => Err (unsupported_format "non-list")
+                 | _ => Err (with_span (i_span (ninfo nested_)) (unsupported_format "non-list"))
                  end
              end)
         else enum_arm r cr n nested_
